@@ -474,6 +474,25 @@ def _nontrivial(case):
     return case['kind'] != 'shape' and case['maxit'] >= 1 and case['x0kind'] != 'exact'
 
 
+def translate(ctx):
+    """Regenerate Gen/cg_gen.v from cg.py (initialisation, early exit, one pass of the loop body) and re-check gen_* = Model/CG.v."""
+    from translate import cg as tcg
+    out = vlib.COQ / 'Gen' / 'cg_gen.v'
+    out.parent.mkdir(exist_ok=True)
+    ok, why = tcg.write(out)
+    ctx.extra.setdefault('coverage', {})['translator_available'] = ok
+    ctx.obligations += tcg.N_OBLIGATIONS
+    if not ok:
+        ctx.notes.append(f'translator harness/translate/cg.py failed closed ({why})')
+        ctx.problem('proof', 'gen_cg', None, f'cg.py is outside the translated subset ({why}): the regenerated obligations gen_cg_* = Model/CG.v cannot be stated')
+        return
+    rc, so, se = vlib.coqc_file(out)
+    if rc == 0:
+        ctx.discharged += tcg.N_OBLIGATIONS
+    else:
+        ctx.problem('proof', 'gen_cg', None, 'regenerated obligation gen_cg_*_ok (cg.py == Model/CG.v: init / early exit / loop body) no longer proves: ' + (se or so)[-700:])
+
+
 def extra_checks(ctx):
     ctx.notes.append('C06 statistics: ' + ', '.join(f'{k}={v:.3g}' if isinstance(v, float) else f'{k}={v}' for k, v in STATS.items()))
     for k, v in STATS.items():
